@@ -100,6 +100,21 @@ profile_by_name(const std::string &name, const std::string &prop, int tier)
                 p.oracles = OR_FIFO | OR_REF;
                 p.suite_kind = 2;
                 p.max_ops = 60;
+        } else if (name == "docsis_big") { // exploration aid: DOCSIS+CRC32 near the 64 KiB limit, co-scheduled
+                p.oracles = OR_FIFO | OR_REF | OR_SOLO;
+                p.max_ops = 12;
+                p.max_len = 65534;
+                p.allow_full = false;
+                for (int k : { 16, 32 })
+                        for (int d = 1; d <= 2; d++) {
+                                Suite su;
+                                su.cipher = IMB_CIPHER_DOCSIS_SEC_BPI;
+                                su.key_len = (uint16_t) k;
+                                su.dir = (uint8_t) d;
+                                su.hash = IMB_AUTH_DOCSIS_CRC32;
+                                su.order = d == 1 ? IMB_ORDER_HASH_CIPHER : IMB_ORDER_CIPHER_HASH;
+                                p.fixed_suites.push_back(su);
+                        }
         } else if (name == "indep") { // C17 L1
                 p.oracles = OR_FIFO | OR_DESC;
                 p.ntasks = 3;
